@@ -6,6 +6,8 @@ CONSTANTS
   Retention <- TraceRetention
   Lookback <- TraceLookback
   MaxPast <- TraceMaxPast
+  OOT <- TraceOOT
+  MFD <- TraceMFD
   Dev <- TraceDev
 POSTCONDITION TraceAccepted
 CHECK_DEADLOCK FALSE
@@ -27,3 +29,4 @@ INVARIANT DebugStop
 INVARIANT InvC04
 PROPERTY ActC04
 INVARIANT InvC05
+PROPERTY ActC20
